@@ -40,7 +40,7 @@ def run_parts(prop, parts):
             m, j = mj[k]
             if part.get("driver") and not cmp_(c, impl[k], m):
                 mism.append(k)
-            if j.startswith("bad") or impl[k].startswith("CRASH") or impl[k].startswith("TIMEOUT"):
+            if (j.startswith("bad") and not part.get("ignore_judge")) or impl[k].startswith("CRASH") or impl[k].startswith("TIMEOUT"):
                 jf.append(k)
             elif part.get("impl_ok") and not part["impl_ok"](c, impl[k]):
                 jf.append(k)
@@ -91,6 +91,11 @@ def main():
     ok, why = C.props_lock_ok(pid)
     if not ok:
         proof_problems.append("statement lock mismatch (%s)" % why)
+    chk_summary = None
+    if tier == "thorough" and b is not None and b.coq_ok:
+        okc, chk_summary = C.coqchk_all()
+        if not okc:
+            proof_problems.append("coqchk: " + chk_summary)
     obligations = len(pf["theorems"])
     discharged = obligations if (pf["compiled"] and not pf["bad_axioms"] and (b is None or b.coq_ok)) else 0
 
@@ -193,6 +198,7 @@ def main():
                    "distribution": r["part"].get("distribution")} for r in results],
         "known_findings_printed": known_printed,
         "proof_problems": proof_problems,
+        "coqchk": chk_summary,
         "build_wall_s": round(b.wall, 2) if b else None,
     }
     C.write_evidence(pid, tier, seed, coverage, time.time() - t0, violations, getattr(prop, "assumptions", []),
